@@ -1,6 +1,7 @@
 package main
 
 import (
+	"os"
 	"sort"
 	"strconv"
 	"strings"
@@ -33,6 +34,7 @@ type Workload struct {
 	// C15
 	Policies []simrt.Policy `json:"policies,omitempty"`
 	Note     string         `json:"note,omitempty"`
+	Fam      string         `json:"fam,omitempty"` // function family of a family run
 	// Share[i] = {dst, src, field}: document dst gets the very same Go value as
 	// document src under that top-level member (sub-tree shared between documents)
 	Share [][3]string `json:"share,omitempty"`
@@ -119,8 +121,55 @@ func randSchedule(r *Rng, ntasks int, gcPct int) simrt.Schedule {
 	return s
 }
 
+// HotBase is the first run index of the "hot" index space of C07: runs whose
+// clients meet inside one construct (function-family, compile-storm and
+// abort-then-overlap runs only) under schedules that preempt almost only next
+// to shared-state accesses. The orchestrator spends a budget there when the
+// instrumenter found such accesses in the repository (a handful of runs
+// otherwise): deep interleavings of a lock-free structure - three clients,
+// four or five ordered steps - are out of reach of a walk that also
+// preempts anywhere else.
+const HotBase = uint64(1) << 40
+
+func genC07Hot(seed, index uint64) *Workload {
+	r := NewRng(seed, 0xC07B, index)
+	kinds := HotKinds()
+	if f := os.Getenv("JMSIM_HOT_KINDS"); f != "" {
+		// set by the orchestrator after its probe (and recorded in replay
+		// files): the shapes whose sequential execution touched shared state
+		kinds = strings.Split(f, ",")
+	}
+	kind := pick(r, kinds)
+	w := genC07(seed, HotBase+r.U64()%(1<<36), kind)
+	w.Index = index
+	w.Note = "hot/" + kind
+	w.Sched = simrt.Schedule{Kind: simrt.StratHotWalk, Seed: r.U64(), HotDen: pick(r, []uint64{2, 2, 3, 4}), WalkDen: pick(r, []uint64{64, 1024, 1 << 30, 1 << 30})}
+	return w
+}
+
 // GenC07 derives one concurrent workload from (seed, index).
 func GenC07(seed, index uint64) *Workload {
+	if index >= HotBase {
+		return genC07Hot(seed, index)
+	}
+	return genC07(seed, index, "")
+}
+
+// HotKinds: the run shapes of the hot index space (function families, "big:"
+// + construct for abort-then-overlap runs on medium documents, compile
+// storms, invalid texts).
+func HotKinds() []string {
+	var ks []string
+	ks = append(ks, FuncFamilies...)
+	for _, f := range BigFamilies[:6] {
+		ks = append(ks, "big:"+f)
+	}
+	return append(ks, "storm", "invalid")
+}
+
+// genC07 with force == "" is the ordinary generator; otherwise the run shape
+// is forced to one of HotKinds.
+func genC07(seed, index uint64, force string) *Workload {
 	r := NewRng(seed, 0xC07, index)
 	w := &Workload{Prop: "C07", Seed: seed, Index: index}
 	ntasks := 2 + r.Intn(3)
@@ -146,7 +195,11 @@ func GenC07(seed, index uint64) *Workload {
 	// half-updated table) only shows when two later calls overlap.
 	aux := NewRng(seed, 0xC07A, index)
 	abortRun := aux.P(1, 40)
-	if r.P(1, 40) || abortRun {
+	forceBig := strings.HasPrefix(force, "big:")
+	if force != "" {
+		abortRun = forceBig
+	}
+	if (r.P(1, 40) && force == "") || abortRun {
 		// big data: shared big documents, expressions over their long arrays
 		// (one of them with a wrong-typed element near the end of its long arrays);
 		// four fifths of these runs use hundreds instead of thousands of elements
@@ -168,15 +221,25 @@ func GenC07(seed, index uint64) *Workload {
 			w.Exprs = nil
 			nexpr = 1 + aux.Intn(2)
 			fam = pick(aux, BigFamilies[:6])
+			if forceBig {
+				fam = force[4:]
+			}
 			for i := 0; i < nexpr; i++ {
 				w.Exprs = append(w.Exprs, specOf(GenBigExprFamily(aux.Fork(300+uint64(i)), fam)))
 			}
 		}
 	}
 	famRun := !bigRun && r.P(1, 8)
+	if force != "" {
+		famRun = !forceBig && force != "storm" && force != "invalid"
+	}
 	if famRun {
 		// several clients inside the same built-in function with different arguments
 		fam := pick(r, FuncFamilies)
+		if force != "" {
+			fam = force
+		}
+		w.Fam = fam
 		w.Exprs = nil
 		nexpr = 2 + r.Intn(3)
 		for i := 0; i < nexpr; i++ {
@@ -185,6 +248,9 @@ func GenC07(seed, index uint64) *Workload {
 		ntasks = 3 + r.Intn(3)
 	}
 	badRun := !bigRun && !famRun && r.P(1, 25)
+	if force != "" {
+		badRun = force == "invalid"
+	}
 	if badRun {
 		// several clients fail to compile different invalid texts at once (error
 		// construction, error paths of the lexer and parser)
@@ -205,7 +271,7 @@ func GenC07(seed, index uint64) *Workload {
 		}
 		ntasks = 2 + r.Intn(3)
 	}
-	deep := !bigRun && !famRun && !badRun && r.P(1, 60)
+	deep := !bigRun && !famRun && !badRun && r.P(1, 60) && force == ""
 	if deep {
 		// several clients parse deeply nested texts at the same time
 		w.Exprs = nil
@@ -223,6 +289,9 @@ func GenC07(seed, index uint64) *Workload {
 	}
 	nexpr = addTextVariants(r, w, nexpr)
 	storm := r.P(1, 10) && !deep && !famRun && !badRun
+	if force != "" {
+		storm = force == "storm"
+	}
 	if storm {
 		// compile storm: many clients compiling many different texts at once
 		ntasks = 4 + r.Intn(4)
